@@ -192,10 +192,20 @@ def isolated_outputs(labels):
 
 
 def isolated_many(label_lists, workers=16):
+    """every task in its own fresh interpreter, each with its own RANDOM hash salt (the harness runs with
+    PYTHONHASHSEED=0): an output that depends on the iteration order of a set differs between them"""
     import multiprocessing as mp
     ctxm = mp.get_context("spawn")
-    with ctxm.Pool(processes=workers, maxtasksperchild=1) as pool:
-        return pool.map(isolated_outputs, label_lists, chunksize=1)
+    old = os.environ.get("PYTHONHASHSEED")
+    os.environ["PYTHONHASHSEED"] = "random"
+    try:
+        with ctxm.Pool(processes=workers, maxtasksperchild=1) as pool:
+            return pool.map(isolated_outputs, label_lists, chunksize=1)
+    finally:
+        if old is None:
+            os.environ.pop("PYTHONHASHSEED", None)
+        else:
+            os.environ["PYTHONHASHSEED"] = old
 
 
 def first_difference(a, b):
@@ -230,12 +240,23 @@ def cross_instance_checks(ctx, grid, start, start_shuffled, end, report):
             return any(isinstance(p.default, (list, dict, set)) for p in ps)
         # every item of a class with a mutable default argument, every fourth of the others
         labels = [ukey(it) for i, it in enumerate(grid) if shared_default(it["cls"]) or i % 4 == 0]
+    multi = [ukey(it) for it in grid if "arrays" in it["label"]]
+    labels = [lb for lb in labels if lb not in multi] + multi
     t0 = time.time()
-    iso = dict(isolated_many([[lb] for lb in labels]))
+    results = isolated_many([[lb] for lb in labels] + [[lb] for lb in multi] * 3)
+    iso = dict(results[:len(labels)])
+    unstable = set()
+    for lb, o in results[len(labels):]:          # further runs of the same item, other hash salts
+        if o != iso[lb] and lb not in unstable:
+            unstable.add(lb)
+            k, x, y = first_difference(iso[lb], o)
+            report(bylabel[lb]["cls"].__name__, "<differs between interpreter runs>",
+                   f"{lb}: two fresh interpreters (different hash salts) give a different {k}",
+                   {"case": {"creator": lb, "call": k}, "implementation": y, "specification": x}, {"run_to_run": True})
     ctx.cov["isolated_subprocess_constructions"] = len(iso)
     for lb, o in iso.items():
         ctx.count_case(("cross-instance", "fresh interpreter", lb), True, None)
-        if o == start[lb]:
+        if o == start[lb] or lb in unstable:
             continue
         k, x, y = first_difference(o, start[lb])
         # which earlier creator of the same class contaminates it?
@@ -452,6 +473,16 @@ def correspondence(ctx: Ctx, grid, allp, only=None, baseline=None):
                                {"creator": item["label"], "entry": entry, "sequence": seq, "changed": changed})
                 ctx.hist("sequence_length", len(seq))
                 ctx.hist("kind", kind)
+                if kind == "blocking":
+                    spec_arr = getattr(obj, "arrays_to_explode", None)
+                    for d, o in zip(seq, outs):
+                        got_arr = o.get("arrays_to_explode") if isinstance(o, dict) else None
+                        if spec_arr and got_arr is not None and list(got_arr) != list(spec_arr):
+                            report(cls, "<specified order not kept>",
+                                   f"{item['label']}.{entry}({d}) returns arrays_to_explode {got_arr}, specified {list(spec_arr)}",
+                                   {"case": {"creator": item["label"], "entry": entry, "sequence": seq}, "implementation": got_arr,
+                                    "specification": list(spec_arr)}, {"order_not_kept": True})
+                            break
                 if not equal:
                     k = next(i for i in range(len(seq)) if jsonable(outs[i]) != jsonable(fresh[i]))
                     report(cls, "<output depends on history>",
